@@ -260,6 +260,18 @@ theorem intersects_nil (other : List Text) :
     AlleleRel.test .intersects [] other = true ↔ other = [] := by
   rw [AlleleRel.test_intersects]; simp [eq_comm]
 
+/-- d. the relations `Subset` and `Intersects` are set relations on the lists: an allele that a list repeats counts
+    once (a homozygous `T/T` call listed as `[T, T]` is contained in `[T]`), whatever the lengths of the lists -/
+theorem subset_repeats (base other : List Text) :
+    AlleleRel.test .subset base (other ++ other) = AlleleRel.test .subset base other := by
+  rw [Bool.eq_iff_iff, AlleleRel.test_subset, AlleleRel.test_subset]
+  constructor
+  · intro h a ha; exact h a (List.mem_append_left _ ha)
+  · intro h a ha; rcases List.mem_append.1 ha with h1 | h1 <;> exact h a h1
+
+theorem subset_longer_list (t : Text) : AlleleRel.test .subset [t] [t, t] = true := by
+  rw [AlleleRel.test_subset]; intro a ha; simp at ha ⊢; exact ha
+
 /-! ## (e) all positional groups -/
 
 /-- the positional group has a first slot and that slot is non-empty -/
